@@ -173,13 +173,13 @@ type c24block struct {
 	idx  uint32
 	slot uint64
 	// VRF provenance
-	vrfKey             int // key id of the VRF signer
-	vrfRand            Randomness
-	vrfSlot, vrfEpoch  uint64
-	vrfTamper          string // "", "output", "proof"
-	out                [32]byte
-	proof              [64]byte
-	verbatim           *types.PreRuntimeDigest // digest exactly as claimSlot returned it (honest path, untouched)
+	vrfKey            int // key id of the VRF signer
+	vrfRand           Randomness
+	vrfSlot, vrfEpoch uint64
+	vrfTamper         string // "", "output", "proof"
+	out               [32]byte
+	proof             [64]byte
+	verbatim          *types.PreRuntimeDigest // digest exactly as claimSlot returned it (honest path, untouched)
 	// seal provenance
 	sealKey  int
 	sealMode string // "ok", "modified-number", "modified-root", "modified-digest", "tampered", "missing", "not-last", "wrong-type"
